@@ -99,8 +99,8 @@ mut("c13-int5-name-rsum-only", "C13", "cmd/cache/file.go",
     "func CreateLevel(path string, h hash.Hash, rsum, dsum []byte, level int) (*File, error) {\n\th.Reset()\n\th.Write(rsum)",
     ["INT-5|cache.CreateLevel|name-binds-key", "INT-5|cache|same-name"])
 mut("c13-int6-header-before-hash", "C13", "cmd/cache/file.go",
-    "\t\tf.h.Reset()\n\t\tif _, err := io.Copy(f.h, f.f); ret == nil {\n\t\t\tret = err\n\t\t}\n\n\t\tf.hd.BodySum = f.h.Sum(nil)\n\t\tif _, err := f.f.Seek(0, io.SeekStart); ret == nil {\n\t\t\tret = err\n\t\t}\n\n\t\tif _, err := f.hd.WriteTo(f.f); ret == nil {\n\t\t\tret = err\n\t\t}\n",
-    "\t\tif _, err := f.f.Seek(0, io.SeekStart); ret == nil {\n\t\t\tret = err\n\t\t}\n\n\t\tif _, err := f.hd.WriteTo(f.f); ret == nil {\n\t\t\tret = err\n\t\t}\n\n\t\tf.h.Reset()\n\t\tif _, err := io.Copy(f.h, f.f); ret == nil {\n\t\t\tret = err\n\t\t}\n\n\t\tf.hd.BodySum = f.h.Sum(nil)\n",
+    "\t\tf.h.Reset()\n\t\tif _, err := io.Copy(f.h, f.f); ret == nil {\n\t\t\tret = err\n\t\t}\n\n\t\tf.hd.BodySum = f.h.Sum(nil)\n",
+    "\t\tif ret == nil {\n\t\t\t_, ret = f.f.Seek(0, io.SeekStart)\n\t\t}\n\t\tif ret == nil {\n\t\t\t_, ret = f.hd.WriteTo(f.f)\n\t\t}\n\n\t\tf.h.Reset()\n\t\tif _, err := io.Copy(f.h, f.f); ret == nil {\n\t\t\tret = err\n\t\t}\n\n\t\tf.hd.BodySum = f.h.Sum(nil)\n",
     ["INT-6|cache.File.Close|order"])
 mut("c13-int6-no-flush", "C13", "cmd/cache/file.go", "\t\tret := f.wr.Close()\n\n\t\tif _, err := f.f.Seek(int64(f.h.Size())*3, io.SeekStart); ret == nil {",
     "\t\tvar ret error\n\n\t\tif _, err := f.f.Seek(int64(f.h.Size())*3, io.SeekStart); ret == nil {", ["INT-6|cache.File.Close|order"])
@@ -112,7 +112,14 @@ mut("c13-int6-placeholder-late", "C13", "cmd/cache/file.go",
     "\thd := Header{rsum, dsum, nil}\n\trd := flate.NewReader(f)\n\twr, err := flate.NewWriter(f, level)\n\t_, ret := f.Write(make([]byte, h.Size()*3))\n",
     ["INT-6|cache.CreateLevel|placeholder"])
 mut("c13-int8-close-seek-dropped", "C13", "cmd/cache/file.go",
-    "\t\tif _, err := f.f.Seek(0, io.SeekStart); ret == nil {\n\t\t\tret = err\n\t\t}\n", "\t\tf.f.Seek(0, io.SeekStart)\n", ["INT-8|cache.File.Close|err-os.File.Seek"])
+    "\t\tif ret == nil {\n\t\t\t_, ret = f.f.Seek(0, io.SeekStart)\n\t\t}\n", "\t\tif ret == nil {\n\t\t\tf.f.Seek(0, io.SeekStart)\n\t\t}\n", ["INT-8|cache.File.Close|err-os.File.Seek"])
+mut("c13-int10-finalise-after-failure-reverted", "C13", "cmd/cache/file.go",
+    "\t\tif ret == nil {\n\t\t\t_, ret = f.f.Seek(0, io.SeekStart)\n\t\t}\n\t\tif ret == nil {\n\t\t\t_, ret = f.hd.WriteTo(f.f)\n\t\t}\n",
+    "\t\tif _, err := f.f.Seek(0, io.SeekStart); ret == nil {\n\t\t\tret = err\n\t\t}\n\n\t\tif _, err := f.hd.WriteTo(f.f); ret == nil {\n\t\t\tret = err\n\t\t}\n",
+    ["INT-10|cache.File.Close|finalise"], note="the repaired defect, reintroduced")
+mut("c13-int10-silent-early-return", "C13", "cmd/cache/file.go",
+    "\t\tif ret == nil {\n\t\t\t_, ret = f.f.Seek(0, io.SeekStart)\n\t\t}\n\t\tif ret == nil {\n\t\t\t_, ret = f.hd.WriteTo(f.f)\n\t\t}\n",
+    "\t\tif ret != nil {\n\t\t\treturn ret\n\t\t}\n\t\t_, ret = f.f.Seek(0, io.SeekStart)\n\t\tif ret == nil {\n\t\t\t_, ret = f.hd.WriteTo(f.f)\n\t\t}\n", silent=True)
 mut("c13-int8-no-remove", "C13", "cmd/gts/io.go", "if err := d.cache.Close(); err != nil || !d.commit {", "if d.cache.Close(); !d.commit {", ["INT-8|main.ioDelegate.Close|remove-on-failure"])
 mut("c13-int9-write-half", "C13", "cmd/cache/file.go", "return f.wr.Write(p)", "return f.wr.Write(p[:len(p)/2])", ["INT-9|cache.File.Write|passthrough"])
 mut("c13-silent-readfull", "C13", "cmd/cache/header.go",
